@@ -52,6 +52,7 @@ class TimeoutCall(Contract):
         self.obj = it.instantiate(info.cid, CallArgs([self.fn], {"timeout": tmo}))
         self.args = sym_tuple(it, "args")
         self.kwargs = st.sym_ref("kwargs", "dict")
+        self.mark = attr_write_mark(it)
         return method(it, info, self.obj, "__call__"), CallArgs(star=self.args, starstar=self.kwargs)
 
     # ---------------------------------------------------------------------------------- invariant
@@ -140,6 +141,7 @@ class TimeoutCall(Contract):
             self.ev_timer(it, timers[0]["callback"])
         else:
             self.ev_future_done(it, on_fut[0])
+        wrapper_frame(it, self.obj, self.mark, "callback")
         raise PathEnd("event simulated")
 
     def ev_task_done(self, it, cb):
@@ -214,6 +216,7 @@ class TimeoutCall(Contract):
 
     def on_return(self, it, ret):
         st = it.st
+        wrapper_frame(it, self.obj, self.mark)
         st.check("P5:a-cancelled-caller-ends-cancelled(the-cancellation-propagates-whatever-the-function-did-meanwhile)",
                  z3.BoolVal(not self.caller_cancelled(it)))
         st.check("P5:returns-the-functions-own-result",
@@ -223,6 +226,7 @@ class TimeoutCall(Contract):
     def on_raise(self, it, exc):
         st = it.st
         g = st.ghost
+        wrapper_frame(it, self.obj, self.mark)
         if not hasattr(self, "fut"):
             nothing_started = not g.get("$tasks") and not g.get("$timers")
             st.check("P5:no-failure-before-the-wiring-is-complete",
@@ -280,3 +284,7 @@ class TimeoutFactory(Contract):
 
 
 CONTRACTS = CONTRACTS + [TimeoutFactory()]
+
+
+def extra_contracts():
+    return mimic_variants("C16")
